@@ -201,20 +201,6 @@ def expected (db : CodecDB) (given : Option Bytes) (cat : List CatEntry) (hidden
   | .error x => .error x
   | .ok es => .ok ⟨es, hidden⟩
 
-/-- what the code under test does instead for an entry with a context (lib/moparser.py:155): the two halves
-    of `ctxt EOT msgid` are bound the wrong way round -/
-def swapCtxt (e : CatEntry) : CatEntry :=
-  match e.ctxt with
-  | none => e
-  | some c => { e with ctxt := some e.msgid, msgid := c }
-
-/-- what the code under test returns for a file that encodes `cat` (Props/C08 `parse_of_encodes_as_coded`):
-    as `expected`, but with every entry's context and msgid exchanged -/
-def expectedAsCoded (db : CodecDB) (given : Option Bytes) (cat : List CatEntry) (hidden : Bool) : Except Err MoFile :=
-  match decodeEntries db (charsetOf db given cat) (cat.map swapCtxt) with
-  | .error x => .error x
-  | .ok es => .ok ⟨es, hidden⟩
-
 /-! ### a family of concrete layouts -/
 
 structure Layout where
